@@ -48,12 +48,12 @@ class Case:
         self.key, self.td, self.multi, self.unwind = key, td, multi, unwind
 
 
-def st(derive, fields, attr=None, rename_all=None, name="T"):
-    return TypeDef(derive, Variant(None, fields, attr=attr), rename_all=rename_all, name=name)
+def st(derive, fields, attr=None, rename_all=None, name="T", extra=()):
+    return TypeDef(derive, Variant(None, fields, attr=attr), rename_all=rename_all, name=name, extra=extra)
 
 
-def en(derive, variants, rename_all=None):
-    return TypeDef(derive, variants, is_enum=True, rename_all=rename_all)
+def en(derive, variants, rename_all=None, extra=()):
+    return TypeDef(derive, variants, is_enum=True, rename_all=rename_all, extra=extra)
 
 
 def cases(tier, seed):
@@ -147,6 +147,27 @@ def cases(tier, seed):
     # `{:p}` with the bare field as its argument: a reference to the field (defect fixed in /repo f6717fb, see module docstring)
     add("ptr_arg_bare_field_probe", st("Display", T1, Attr([P(None, "p")], ["_0"])), unwind=20)
     add("ptr_arg_bare_field_real", st("Display", RU, Attr([P(None, "p")], ["_0"])), unwind=20)
+    # `{field:p}` next to a `:p` placeholder that is bound to an EXPLICIT named argument: the field named in the literal is still the
+    # field itself, an alias that re-binds a field's name replaces exactly that field (seed C02_1: all `field = *field` dropped)
+    add("ptr_named_field_and_alias_arg", st("Display", T2, Attr([P("_0", "p"), "/", P("q", "p")], [Arg("*_1", "q")])))
+    add("ptr_named_field_and_alias_arg_n3", st("LowerHex", N3, Attr([P("b", "p"), P("k", "p"), P("a", "p"), P("c")], [Arg("c.twin()", "k")])))
+    add("ptr_alias_rebinds_one_field", st("Display", N2, Attr([P("a", "p"), "/", P("b", "p")], [Arg("b.twin()", "a")])))
+    add("ptr_named_field_and_alias_arg_variant", en("Display", [Variant("Other", []), Variant("V", N2, attr=Attr(["<", P("a", "p"), P("z", "p"), ">"], [Arg("*b", "z")]))]))
+    add("ptr_named_field_and_alias_arg_debug", st("Debug", T2, Attr([P("_1", "p"), " ", P("q", "p")], [Arg("_0.twin()", "q")])))
+    add("ptr_named_field_and_alias_arg_debug_variant", en("Debug", [Variant("Other", T1), Variant("V", T2, attr=Attr([P("q", "p"), P("_0", "p")], [Arg("*_1", "q")]))]))
+    add("ptr_real_named_field_and_alias_arg", st("Display", [Field(ty="refu8"), Field(ty="refu8")], Attr([P("_0", "p"), " / ", P("other", "p")], [Arg("*_1", "other")])), unwind=20)
+    # rename_all next to ANOTHER attribute of the same item, in both orders (`bound(..)` may be repeated freely; seed C02_3: a later
+    # non-rename_all attribute erased the casing)
+    B = "bound(Probe: Clone)"
+    add("rename_all_enum_then_bound", en("Display", [Variant(n, []) for n in RENAME_NAMES[:3]], rename_all="snake_case", extra=[("last", B)]), multi=True)
+    add("rename_all_enum_after_bound", en("Display", [Variant(n, []) for n in RENAME_NAMES[:3]], rename_all="SCREAMING-KEBAB-CASE", extra=[("first", B)]), multi=True)
+    add("rename_all_enum_between_bounds", en("Display", [Variant(n, []) for n in RENAME_NAMES[1:4]], rename_all="camelCase",
+                                             extra=[("first", B), ("last", "bound(Probe: Copy)"), ("last", "bounds(u8: Copy)")]), multi=True)
+    add("rename_all_variant_then_bound", en("Display", [Variant("HttpError", [], rename_all="kebab-case", extra=[("last", B)]),
+                                                        Variant("XMLThing", [], rename_all="UPPERCASE", extra=[("first", B)]),
+                                                        Variant("VariantOne", [], extra=[("last", B)])], rename_all="snake_case", extra=[("last", B)]), multi=True)
+    add("rename_all_struct_then_bound", st("Display", [], rename_all="SCREAMING_SNAKE_CASE", name="HttpError", extra=[("last", B)]))
+    add("rename_all_struct_after_bound", st("Display", [], rename_all="snake_case", name="XMLThing", extra=[("first", B)]))
     # 10. Debug with a variant-level attribute
     add("debug_variant_attr", en("Debug", [Variant("Other", T1), Variant("V", N2, attr=Attr([P("a"), " ", P("b", "x"), " ", P(None, "?")], ["a.twin()"]))]))
     if tier == "thorough":
